@@ -326,7 +326,7 @@ def bind_contract(fn, cond):
         ],
         'prologue': 'g_top_has0 = g_top_has; g_old_entry = g_entries[gk][g_e];',
         'loops': {0: {'assigns': 'i, g_top_has, g_top_val, g_seen, __CPROVER_object_whole(g_entries)',
-                      'body_begin': 'if (g_param_names[i] == g_n) g_seen = 1;',
+                      'body_begin': 'if (g_param_names[i] == g_n) g_seen = 1;', 'ghost_in_bounded': True,
                       'invariants': [(lab + '.loop.bounds', 'i <= g_nparams && i <= g_nargs'),
                                      (lab + '.loop.bound_so_far', '(gi < i && g_param_names[gi] == g_n) ==> (g_top_has && g_top_val.initialized)'),
                                      (lab + '.loop.only_parameter_names', '(g_top_has != 0) == (g_top_has0 != 0 || g_seen != 0)'),
